@@ -233,6 +233,8 @@ def run(case):
 def gen_keys(rng, kd=None, style=None, nk=None, tier="quick"):
     kd = kd if kd != "pick" else rng.choice(KD)
     nk = nk or rng.randint(1, 10 if tier == "quick" else 64)
+    if kd in ("int8", "uint8"):
+        nk = min(nk, 64)
     style = style or rng.choice(["small", "neg", "big", "dense"])
     if kd is None:
         lo, hi = -2 ** 62, 2 ** 62
